@@ -303,3 +303,77 @@ Example shift_proc_example :
          [Assign x [BinOp OSub (BinOp OAdd (Var i) (BinOp OSub (Int 2) (Int 0))) (Int 2)]
                  (Real (Qcanon.Q2Qc (QArith_base.Qmake 1 1)))] false].
 Proof. split; reflexivity. Qed.
+
+(** ** renaming the iteration variable (the effect of Alpha_Rename on a duplicated loop: cut_loop, fission,
+    divide_loop's tail loop give the copy a fresh iteration Sym) *)
+Section RenameIter.
+  Variables i i2 : sym.
+  Hypothesis ne : i <> i2.
+
+  Definition okbR (y : sym) : bool := negb (Pos.eqb y i) && negb (Pos.eqb y i2).
+  Definition hidR (y : sym) : bool := Pos.eqb y i2.
+
+  Fixpoint TR (e : env) : env :=
+    match e with
+    | [] => []
+    | (y, b) :: r => if Pos.eqb y i then (i2, b) :: r else (y, b) :: TR r
+    end.
+
+  Lemma TR_lookup : forall e y, y <> i -> hidR y = false -> lookup y (TR e) = lookup y e.
+  Proof.
+    induction e as [|[z b] r IH]; intros y Hy Hh; [reflexivity|]. cbn [TR]. unfold hidR in Hh.
+    destruct (Pos.eqb z i) eqn:E.
+    - apply Pos.eqb_eq in E. subst z. cbn [lookup]. rewrite Hh.
+      destruct (Pos.eqb y i) eqn:E2; [apply Pos.eqb_eq in E2; contradiction|reflexivity].
+    - cbn [lookup]. destruct (Pos.eqb y z); [reflexivity|]. apply IH; assumption.
+  Qed.
+  Lemma okbR_i : okbR i = false.
+  Proof. unfold okbR. rewrite Pos.eqb_refl. reflexivity. Qed.
+  Lemma TR_cons : forall y b e, okbR y = true -> TR ((y, b) :: e) = (y, b) :: TR e.
+  Proof.
+    intros y b e H. unfold okbR in H. apply andb_true_iff in H as [H _]. apply negb_true_iff in H.
+    cbn [TR]. rewrite H. reflexivity.
+  Qed.
+
+  Lemma rename_iteration : forall body k st0 s,
+    forallb (okbind okbR) body = true -> forallb (nm_s i hidR) body = true ->
+    loop_body i body k st0 = Ok s -> loop_body i2 (pe_ss i (Var i2) body) k st0 = Ok s.
+  Proof.
+    intros body k st0 s Hok Hnm Hrun. unfold loop_body in *.
+    pose (Good := fun e : env => lookup i2 e = Some (BVal (VInt k))).
+    assert (Hev : forall st, Good (s_env st) -> eval st (Var i2) = Ok (VInt k)).
+    { intros st Hg. cbn [eval]. unfold Good in Hg. rewrite Hg. reflexivity. }
+    assert (Hgc : forall y b e, okbR y = true -> Good e -> Good ((y, b) :: e)).
+    { intros y b e Hy Hg. unfold Good in *. unfold okbR in Hy. apply andb_true_iff in Hy as [_ Hy].
+      apply negb_true_iff in Hy. cbn [lookup]. rewrite Pos.eqb_sym, Hy. exact Hg. }
+    pose proof (body_sub i (Var i2) (VInt k) okbR TR Good hidR okbR_i Hev (fun st _ => eq_refl) TR_lookup TR_cons Hgc
+                  body (bind_var i (BVal (VInt k)) st0) Hok Hnm) as Hsim.
+    assert (Hinv : inv i (VInt k) TR Good (bind_var i (BVal (VInt k)) st0)).
+    { split; cbn [bind_var s_env lookup TR]; rewrite Pos.eqb_refl; [reflexivity|].
+      unfold Good. cbn [lookup]. rewrite Pos.eqb_refl. reflexivity. }
+    specialize (Hsim Hinv).
+    assert (Ht : tst TR (bind_var i (BVal (VInt k)) st0) = bind_var i2 (BVal (VInt k)) st0).
+    { unfold tst, with_env, bind_var. cbn [s_env s_heap s_next s_cfg TR]. rewrite Pos.eqb_refl. reflexivity. }
+    rewrite Ht in Hsim.
+    destruct (exec_list body (bind_var i (BVal (VInt k)) st0)) as [s1|] eqn:E1; cbn [bind] in Hrun; [|discriminate Hrun].
+    destruct (exec_list (pe_ss i (Var i2) body) (bind_var i2 (BVal (VInt k)) st0)) as [s2|] eqn:E2;
+      cbn [rsim] in Hsim; [|contradiction].
+    destruct Hsim as [-> _]. cbn [bind]. rewrite <- Hrun. reflexivity.
+  Qed.
+
+  Theorem rule_rename_iter : forall lo hi body par,
+    forallb (okbind okbR) body = true -> forallb (nm_s i hidR) body = true ->
+    refines [For i lo hi body par] [For i2 lo hi (pe_ss i (Var i2) body) par].
+  Proof.
+    intros lo hi body par Hok Hnm st st' H. rewrite single in *. rewrite exec_For in *.
+    destruct (eval st lo) as [vl|]; cbn [bind] in *; [|discriminate H].
+    destruct (as_int vl) as [l|]; cbn [bind] in *; [|discriminate H].
+    destruct (eval st hi) as [vh|]; cbn [bind] in *; [|discriminate H].
+    destruct (as_int vh) as [h|]; cbn [bind] in *; [|discriminate H].
+    destruct (h <? l); [discriminate H|].
+    revert H. generalize (Z.to_nat (h - l)) as n. generalize l as k. clear l. revert st.
+    intros st k n. revert k st. induction n as [|n IH]; intros k st H; cbn [iter_loop] in *; [exact H|].
+    destruct (loop_body i body k st) as [s1|] eqn:E1; cbn [bind] in H; [|discriminate H].
+    rewrite (rename_iteration body k st s1 Hok Hnm E1). cbn [bind]. apply IH, H.
+  Qed.
+End RenameIter.
